@@ -1,4 +1,5 @@
-//! C01 — value correspondence for the leakage model (op names start with `c01.leak.`).
+//! C01 — value correspondence for the leakage model (op names start with `c01.leak.`; crate-internal functions
+//! reached through `crypto_bigint::verif_hooks` are `c01.hook.<name>`).
 //!
 //! Each op calls the REAL public function(s) that one `CB.Leak.*` model function stands for and prints the results in
 //! the format of `lean/CB/Driver/C01.lean` (which prints `L1 ;; L0`: leak-model value ;; plain specification).
@@ -332,15 +333,14 @@ fn boxed_assign(a: &[&str]) -> Option<String> {
     let mut cn = x.clone();
     cn.conditional_negate(ch);
     Some(format!(
-        "{} {} {} {} {} {} {} {}",
+        "{} {} {} {} {} {} {}",
         bhexlen(&s),
         lhex(cy),
         bhexlen(&d),
         lhex(bw),
         bhexlen(&cn),
         bhexlen(&x.wrapping_neg()),
-        choice(x.is_zero()),
-        bhexlen(&hooks::boxed_shr1(&x))
+        choice(x.is_zero())
     ))
 }
 fn boxed_ct(a: &[&str]) -> Option<String> {
@@ -409,8 +409,82 @@ fn boxed_inv_mod2k(a: &[&str]) -> Option<String> {
     Some(format!("{} {} {} {}", bhexlen(&r), choice(rs), bhexlen(&v), choice(vs)))
 }
 
+fn boxed_shr1(a: &[&str]) -> Option<String> {
+    let n = arg!(dec(a[0]));
+    Some(bhexlen(&hooks::boxed_shr1(&arg!(boxed(a[1], n)))))
+}
+
+// ---- safegcd (hooks): unsaturated integers are arrays of 62-bit limbs, printed / parsed as 64-bit words
+fn arr<const U: usize>(s: &str) -> Option<[u64; U]> {
+    let w = hex_words(s, U)?;
+    let mut a = [0u64; U];
+    a.copy_from_slice(&w);
+    Some(a)
+}
+fn unsat<const U: usize>(a: &[&str]) -> Option<String> {
+    use hooks::safegcd as sg;
+    let (x, y, o) = (arg!(arr::<U>(a[1])), arg!(arr::<U>(a[2])), arg!(word(a[3])));
+    let sel = if o & 1 == 1 { y } else { x };
+    Some(format!(
+        "{} {} {} {} {} {} {:x} {}",
+        words_hex(&sg::unsat_add(x, y)),
+        words_hex(&sg::unsat_mul(x, o as i64)),
+        words_hex(&sg::unsat_neg(x)),
+        words_hex(&sg::unsat_shr(x)),
+        bit(sg::unsat_eq(x, y)),
+        bit(sg::unsat_is_negative(x)),
+        sg::unsat_bits(x),
+        words_hex(&sel) // `UnsatInt::select` has no hook of its own: exercised through inv_odd_mod / gcd
+    ))
+}
+fn unsat_conv<const N: usize, const U: usize>(a: &[&str]) -> Option<String> {
+    use hooks::safegcd as sg;
+    let x = arg!(uint::<N>(a[1]));
+    let c: [u64; U] = sg::unsat_from_uint::<N, U>(&x);
+    Some(format!("{} {}", words_hex(&c), uhex(&sg::unsat_to_uint::<N, U>(c))))
+}
+fn jump(a: &[&str]) -> Option<String> {
+    let (f, g, d) = (arg!(word(a[0])), arg!(word(a[1])), arg!(word(a[2])));
+    let (delta, t) = hooks::safegcd::jump(&[f], &[g], d as i64);
+    Some(format!("{:x} {:x} {:x} {:x} {:x}", delta as u64, t[0][0] as u64, t[0][1] as u64, t[1][0] as u64, t[1][1] as u64))
+}
+fn fgde<const U: usize>(a: &[&str]) -> Option<String> {
+    use hooks::safegcd as sg;
+    let (f, g, d, e, m) = (arg!(arr::<U>(a[1])), arg!(arr::<U>(a[2])), arg!(arr::<U>(a[3])), arg!(arr::<U>(a[4])), arg!(arr::<U>(a[5])));
+    let inv = arg!(word(a[6])) as i64;
+    let t = [[arg!(word(a[7])) as i64, arg!(word(a[8])) as i64], [arg!(word(a[9])) as i64, arg!(word(a[10])) as i64]];
+    let (f1, g1) = sg::fg(f, g, t);
+    let (d1, e1) = sg::de(m, inv, t, d, e);
+    Some(format!("{} {} {} {}", words_hex(&f1), words_hex(&g1), words_hex(&d1), words_hex(&e1)))
+}
+fn divsteps<const U: usize>(a: &[&str]) -> Option<String> {
+    let (e, f0, g) = (arg!(arr::<U>(a[1])), arg!(arr::<U>(a[2])), arg!(arr::<U>(a[3])));
+    let (d, f) = hooks::safegcd::divsteps(e, f0, g, arg!(word(a[4])) as i64);
+    Some(format!("{} {}", words_hex(&d), words_hex(&f)))
+}
+macro_rules! inv_gcd {
+    ($inv:ident, $gcd:ident, $n:literal) => {
+        fn $inv(a: &[&str]) -> Option<String> {
+            let (m, v) = (arg!(uint::<$n>(a[1])), arg!(uint::<$n>(a[2])));
+            Some(co(v.inv_odd_mod(&arg!(Option::from(Odd::new(m))))))
+        }
+        fn $gcd(a: &[&str]) -> Option<String> {
+            let (x, y) = (arg!(uint::<$n>(a[1])), arg!(uint::<$n>(a[2])));
+            // (`impl Gcd<Uint> for Odd<Uint>` is bounded on `Odd<Odd<Uint>>: PrecomputeInverter` and cannot be called:
+            // the constant-time `SafeGcdInverter::gcd` is reached through `Uint::gcd` only)
+            Some(uhex(&x.gcd(&y)))
+        }
+    };
+}
+inv_gcd!(inv_odd_mod_1, gcd_1, 1);
+inv_gcd!(inv_odd_mod_2, gcd_2, 2);
+inv_gcd!(inv_odd_mod_3, gcd_3, 3);
+inv_gcd!(inv_odd_mod_4, gcd_4, 4);
+inv_gcd!(inv_odd_mod_6, gcd_6, 6);
+inv_gcd!(inv_odd_mod_8, gcd_8, 8);
+
 pub fn dispatch(op: &str, a: &[&str]) -> Option<String> {
-    let name = op.strip_prefix("c01.leak.")?;
+    let name = op.strip_prefix("c01.leak.").or_else(|| op.strip_prefix("c01.hook."))?;
     let n = || a.first().and_then(|s| dec(s));
     let need = |k: usize| a.len() == k;
     macro_rules! chk {
@@ -512,6 +586,74 @@ pub fn dispatch(op: &str, a: &[&str]) -> Option<String> {
         "boxed_modarith" => { chk!(4); boxed_modarith(a) }
         "boxed_bits" => { chk!(4); boxed_bits(a) }
         "boxed_inv_mod2k" => { chk!(3); boxed_inv_mod2k(a) }
+        "boxed_shr1" => { chk!(2); boxed_shr1(a) }
+        "unsat" => {
+            chk!(4);
+            match arg!(n()) {
+                1 => unsat::<1>(a),
+                2 => unsat::<2>(a),
+                3 => unsat::<3>(a),
+                4 => unsat::<4>(a),
+                6 => unsat::<6>(a),
+                _ => Some("unsupported-width".to_string()),
+            }
+        }
+        "unsat_conv" => {
+            chk!(2);
+            match arg!(n()) {
+                1 => unsat_conv::<1, 3>(a),
+                2 => unsat_conv::<2, 4>(a),
+                3 => unsat_conv::<3, 5>(a),
+                4 => unsat_conv::<4, 6>(a),
+                6 => unsat_conv::<6, 8>(a),
+                8 => unsat_conv::<8, 10>(a),
+                _ => Some("unsupported-width".to_string()),
+            }
+        }
+        "jump" => { chk!(3); jump(a) }
+        "fgde" => {
+            chk!(11);
+            match arg!(n()) {
+                2 => fgde::<2>(a),
+                3 => fgde::<3>(a),
+                4 => fgde::<4>(a),
+                6 => fgde::<6>(a),
+                _ => Some("unsupported-width".to_string()),
+            }
+        }
+        "divsteps" => {
+            chk!(5);
+            match arg!(n()) {
+                2 => divsteps::<2>(a),
+                3 => divsteps::<3>(a),
+                4 => divsteps::<4>(a),
+                _ => Some("unsupported-width".to_string()),
+            }
+        }
+        "inv_odd_mod" => {
+            chk!(3);
+            match arg!(n()) {
+                1 => inv_odd_mod_1(a),
+                2 => inv_odd_mod_2(a),
+                3 => inv_odd_mod_3(a),
+                4 => inv_odd_mod_4(a),
+                6 => inv_odd_mod_6(a),
+                8 => inv_odd_mod_8(a),
+                _ => Some("unsupported-width".to_string()),
+            }
+        }
+        "gcd" => {
+            chk!(3);
+            match arg!(n()) {
+                1 => gcd_1(a),
+                2 => gcd_2(a),
+                3 => gcd_3(a),
+                4 => gcd_4(a),
+                6 => gcd_6(a),
+                8 => gcd_8(a),
+                _ => Some("unsupported-width".to_string()),
+            }
+        }
         _ => None,
     }
 }
